@@ -105,18 +105,42 @@ class Conforms:
 
     def truth3(self, vt):
         """op -> set of order types (x ? l) on which the arm is true; None if not extractable"""
-        t, m = self.op_table(vt)
-        if t is None:
-            return None, None
-        ev = Evaluator(self.leaf3, self.locs)
-        out = {}
-        for op, body in t.items():
-            s = set()
-            for o in ORD3:
-                if ev.boolean(body, ORD3_ENV[o]):
-                    s.add(o)
-            out[op] = s
-        return out, m
+        try:
+            t, m = self.op_table(vt)
+            if t is None:
+                return None, None
+            ev = Evaluator(self.leaf3, self.locs)
+            out = {}
+            for op, body in t.items():
+                s = set()
+                for o in ORD3:
+                    if ev.boolean(body, ORD3_ENV[o]):
+                        s.add(o)
+                out[op] = s
+            return out, m
+        except NotComparison as e:
+            # the arm is not a table of plain comparisons (a helper deciding on an Ordering ..): the same table by
+            # evaluation of conforms on one pair of operands per order type (rules/conf.py)
+            if vt not in ("Int", "Float"):
+                raise
+            import conf
+            import interp
+            run = conf.Run(self.ctx)
+            out = {}
+            try:
+                for op in list(SPEC3) + ["Like"]:
+                    s = set()
+                    for o, a in (("lt", 1), ("eq", 2), ("gt", 3)):
+                        left = conf.variant(str(a), vt, int_value=a, float_value=float(a))
+                        got, _tr = run.run(op, left, conf.variant("2"))
+                        if got is True:
+                            s.add(o)
+                        elif got is not False:
+                            raise NotComparison("%s; evaluation of %s gives %r" % (e, op, got))
+                    out["_" if op == "Like" else op] = s
+            except interp.Undecided as e2:
+                raise NotComparison("%s; not evaluable either: %s" % (e, e2))
+            return out, self.hir
 
 
 
